@@ -1195,7 +1195,7 @@ vbi_decode_vps(vbi_decoder *vbi, uint8_t *buf)
 
 		if (id != n->nuid) {
 			if (n->nuid != 0)
-				vbi_chsw_reset(vbi, id);
+				vbi_chsw_reset(vbi, id ? id : VBI_NUID_UNLISTED);
 
 			n->nuid = id;
 
@@ -1280,7 +1280,7 @@ parse_bsd(vbi_decoder *vbi, uint8_t *raw, int packet, int designation)
 
 				if (id != n->nuid) {
 					if (n->nuid != 0)
-						vbi_chsw_reset(vbi, id);
+						vbi_chsw_reset(vbi, id ? id : VBI_NUID_UNLISTED);
 
 					n->nuid = id;
 
@@ -1370,7 +1370,7 @@ parse_bsd(vbi_decoder *vbi, uint8_t *raw, int packet, int designation)
 
 				if (id != n->nuid) {
 					if (n->nuid != 0)
-						vbi_chsw_reset(vbi, id);
+						vbi_chsw_reset(vbi, id ? id : VBI_NUID_UNLISTED);
 
 					n->nuid = id;
 
